@@ -377,6 +377,9 @@ func (ms *Modules) Process() []error {
 	ms.mergedSubmodule = map[string]bool{}
 	ms.includes = map[*Module]bool{}
 	ms.ClearEntryCache()
+	// Types are resolved against the modules known now, not against those
+	// known to an earlier call.
+	ms.typeDict.forgetResolved()
 
 	errs := ms.process()
 	if len(errs) > 0 {
